@@ -24,7 +24,7 @@ func init() {
 	register(&Check{
 		ID:    "C15",
 		Title: "Variable byte integers are encoded minimally and decoded exactly",
-		Level: "exploration",
+		Level: "model_checking",
 		Rule: "odometer over the raw spaces: (a) every value 0..2^28-1 encoded by the library's encoder (hook), compared byte for byte with an independent reference encoding, " +
 			"then decoded by the in-memory decoder (as buffer.get drives it) and by the streaming decoder with tails {none,00,ff,80}: value, bytes advanced and bytes drawn from a counting reader must be exact; " +
 			"(b) every byte string up to the tier's length given as the whole data / whole stream: both decoders must agree with a 12-line reference decoder on value or rejection; " +
@@ -197,6 +197,7 @@ func runC15(x *core.Ctx) {
 			}
 		}
 		x.EvalN("values", block)
+		x.R.Transitions += block * 10 // fill, width, and both decoders under four tails
 		if blk == 0 {
 			x.R.Distinct += block - 128
 		} else {
@@ -212,6 +213,7 @@ func runC15(x *core.Ctx) {
 	}
 	var buf [5]byte
 	doString := func(b []byte) {
+		x.R.Transitions += 2 // both decoders
 		var f *core.Finding
 		if guarded(0, func() { f = c15StringRaw(b) }).Panic != "" {
 			f = c15String(b)
